@@ -35,8 +35,8 @@ class Caller:
         self.ctx_k = ctx_k
         self.calls = 0
 
-    def _run(self, fn, X):
-        x = torch.as_tensor(np.asarray(X), dtype=self.dtype).reshape(-1, *self.shape)
+    def _run(self, fn, X, shape=None):
+        x = torch.as_tensor(np.asarray(X), dtype=self.dtype).reshape(-1, *(shape or self.shape))
         ctx = context_for(self.s, self.cfg, x.shape[0], self.dtype, self.ctx_k)
         self.calls += 1
         with torch.no_grad():
@@ -48,7 +48,7 @@ class Caller:
         return y.reshape(y.shape[0], -1).double().numpy(), ld.double().numpy(), (y, ld)
 
     def inv(self, X):
-        y, ld = self._run(self.m.inverse, X)
+        y, ld = self._run(self.m.inverse, X, self.s.out_shape(self.cfg))
         return y.reshape(y.shape[0], -1).double().numpy(), ld.double().numpy(), (y, ld)
 
 
